@@ -1,7 +1,7 @@
 (* C01 - proofs about Model/VecEnv.v: projection (no cross-talk), auto-reset contract,
    seed/options delivery; interface lemmas to the fragments regenerated from
    dummy_vec_env.py / subproc_vec_env.py. *)
-From SB3V Require Import Lib.Tactics Model.Script Model.VecEnv Gen.Frag_vecenv.
+From SB3V Require Import Lib.Tactics Model.Script Model.VecEnv Gen.Frag_vecenv Gen.Frag_seed.
 Local Open Scope nat_scope.
 
 (* ---------- interface lemmas: regenerated fragments = model formulas ---------- *)
@@ -17,6 +17,10 @@ Lemma frag_worker_timelimit : forall t tr, worker_timelimit t tr = (tr && negb t
 Proof. intros [] []; reflexivity. Qed.
 Lemma frag_worker_guard : forall d t tr, worker_autoreset_guard d t tr = d.
 Proof. intros [] [] []; reflexivity. Qed.
+
+(* VecEnv.seed: self._seeds = [seed + idx for idx in range(self.num_envs)] - the element expression, regenerated (group seed) *)
+Lemma frag_vec_seed : forall s idx, seed_vecenv_elt s idx = (s + idx)%Z.
+Proof. intros. unfold seed_vecenv_elt. lia. Qed.
 
 (* generic list facts *)
 Lemma nth_error_repeat_lt {X} (x : X) n i : i < n -> nth_error (repeat x n) i = Some x.
@@ -487,6 +491,21 @@ Proof.
               (length (spre ++ SSeed (s + Z.of_nat i)%Z :: smid))) as [out|]; [|discriminate].
   cbn in N. inv N. exists out, obs, ri, o. auto.
 Qed.
+
+(* the same with the regenerated seed expression of VecEnv.seed *)
+Theorem vec_seed_delivery_regenerated : forall envs i e pre s mid post,
+  nth_error envs i = Some e ->
+  Forall (wf_vop (length envs)) ((pre ++ VSeed s :: mid) ++ VReset :: post) ->
+  forallb vquiet mid = true ->
+  exists out obs ri o,
+    nth_error (vrun (vinit envs) ((pre ++ VSeed s :: mid) ++ VReset :: post)) (length (pre ++ VSeed s :: mid)) = Some out /\
+    proj_out i out = Some (SOReset obs ri [CReset (Some (seed_vecenv_elt s (Z.of_nat i))) o]).
+Proof. intros. rewrite frag_vec_seed. eapply vec_seed_delivery; eauto. Qed.
+
+(* the seeds list kept by the model after seed(s) is the regenerated element expression at every index *)
+Theorem vseed_is_regenerated : forall (vs : vstate E I Opt) s,
+  v_seeds (fst (vapply vs (VSeed s))) = map (fun idx => Some (seed_vecenv_elt s (Z.of_nat idx))) (seq 0 (num_envs vs)).
+Proof. intros vs s. cbn [VecEnv.vapply fst v_seeds]. apply map_ext. intros idx. rewrite (frag_vec_seed s (Z.of_nat idx)). reflexivity. Qed.
 
 End Proofs.
 
